@@ -230,6 +230,31 @@ fn screen_c15(ctx: &mut Ctx) {
     for f in F32U.iter().take(13).copied().chain(["hypot", "powf", "atan2"]) {
         let two = matches!(f, "hypot" | "powf" | "atan2");
         let mut worst: Vec<(i64, u64, u64)> = Vec::new();
+        // distance (in patterns) of the implementation's result from the f64 value; None: not comparable
+        let eval = |ctx: &mut Ctx, a: u64, b: u64| -> Option<i64> {
+            let want = f64_ref(f, p(a), p(b));
+            if !want.is_finite() {
+                return None;
+            }
+            let got = match if two { peek(ty, f, &[a, b]) } else { peek(ty, f, &[a]) } {
+                Some(r) if r != 0x8000_0000 => r,
+                _ => return None,
+            };
+            ctx.sink.screened += 1;
+            let w = softposit::P32E2::from_f64(want).to_bits();
+            Some(((got as u32 as i32) as i64 - (w as i32) as i64).abs())
+        };
+        let push = |worst: &mut Vec<(i64, u64, u64)>, d: i64, a: u64, b: u64| {
+            if d >= 1 {
+                worst.push((d, a, b));
+                if worst.len() > 4 * keep {
+                    worst.sort_by(|x, y| y.0.cmp(&x.0));
+                    worst.dedup();
+                    worst.truncate(keep);
+                }
+            }
+        };
+        // round 0: the whole domain
         for i in 0..n {
             let (lo, hi) = match f {
                 "sin" | "cos" | "tan" => (-30, 19),
@@ -239,7 +264,7 @@ fn screen_c15(ctx: &mut Ctx) {
                 "powf" => (-3, 4),
                 _ => (-60, 60),
             };
-            let mut pick = |ctx: &mut Ctx, signed: bool| {
+            let pick = |ctx: &mut Ctx, signed: bool| {
                 // half of the sample: every binade of the range equally likely; half: a few binades around 1
                 let s = if i % 2 == 0 { ctx.rng.gen_range(lo..hi) } else { ctx.rng.gen_range(lo.max(-3)..hi.min(4)) };
                 let v = gen::from_scale(32, 2, s, ctx.rng.gen::<u64>());
@@ -247,26 +272,34 @@ fn screen_c15(ctx: &mut Ctx) {
             };
             let a = pick(ctx, !matches!(f, "ln" | "log2" | "powf"));
             let b = if two { pick(ctx, true) } else { 0 };
-            let want = f64_ref(f, p(a), p(b));
-            if !want.is_finite() {
-                continue;
+            if let Some(d) = eval(ctx, a, b) {
+                push(&mut worst, d, a, b);
             }
-            let got = match if two { peek(ty, f, &[a, b]) } else { peek(ty, f, &[a]) } {
-                Some(r) if r != 0x8000_0000 => r,
-                _ => continue,
-            };
-            let w = softposit::P32E2::from_f64(want).to_bits();
-            let d = ((got as u32 as i32) as i64 - (w as i32) as i64).abs();
-            ctx.sink.screened += 1;
-            if d >= 1 {
-                worst.push((d, a, b));
-                if worst.len() > 4 * keep {
-                    worst.sort_by(|x, y| y.0.cmp(&x.0));
-                    worst.truncate(keep);
+        }
+        // rounds 1, 2: hill climbing -- inputs near the worst ones found so far (errors at or above the bound cluster
+        // where a kernel is weakest: next to a branch threshold, at the largest polynomial argument, ...)
+        for (radius, share) in [(1i64 << 22, 2usize), (1i64 << 14, 4)] {
+            worst.sort_by(|x, y| y.0.cmp(&x.0));
+            worst.dedup();
+            let seeds: Vec<(u64, u64)> = worst.iter().take(48).map(|w| (w.1, w.2)).collect();
+            if seeds.is_empty() {
+                break;
+            }
+            for i in 0..n / share {
+                let (sa, sb) = seeds[i % seeds.len()];
+                let jit = |ctx: &mut Ctx, v: u64| ((v as i64 + ctx.rng.gen_range(-radius..=radius)) as u64) & 0xffff_ffff;
+                let a = jit(ctx, sa);
+                let b = if two && i % 2 == 0 { jit(ctx, sb) } else { sb };
+                if a == 0 || a == 0x8000_0000 || (two && (b == 0 || b == 0x8000_0000)) {
+                    continue;
+                }
+                if let Some(d) = eval(ctx, a, b) {
+                    push(&mut worst, d, a, b);
                 }
             }
         }
         worst.sort_by(|x, y| y.0.cmp(&x.0));
+        worst.dedup();
         worst.truncate(keep);
         for &(_, a, b) in &worst {
             if two {
